@@ -139,6 +139,7 @@ package flags
 
 //@ assumed func convert(val string, retval reflect.Value, options multiTag) (err error)
 //@   traced
+//@   ensures is(err, *Error) ==> as(err, *Error) != nil
 
 // ===================================================================
 // parser.go: parseState
@@ -186,6 +187,7 @@ package flags
 //@   let m := ncalls(convert) - old(ncalls(convert))
 //@   ensures[C03,C10] err != nil ==> p.err == err && same(p.retargs, old(p.retargs))
 //@   ensures[C03,C10] err == nil ==> p.err == old(p.err)
+//@   ensures is(err, *Error) ==> as(err, *Error) != nil
 //@   ensures[C03,C10] 0 <= ncalls(convert) - old(ncalls(convert)) && ncalls(convert) - old(ncalls(convert)) <= len(args)
 //@   ensures[C03,C10] forall(k, 0, ncalls(convert) - old(ncalls(convert)), callarg(convert, old(ncalls(convert)) + k, 0) == args[k])
 //@   ensures[C03] err == nil ==> len(p.retargs) == len(old(p.retargs)) + len(args) - (ncalls(convert) - old(ncalls(convert)))
@@ -291,6 +293,7 @@ package flags
 //@   ensures[C01,C02] ca && argument == nil && !takes && option.OptionalArgument ==> forall(k, 0, ncalls(Option.Set) - n0, callarg(Option.Set, n0 + k, 0) == option && callarg(Option.Set, n0 + k, 1) != nil && *callarg(Option.Set, n0 + k, 1) == option.OptionalValue[k])
 //@   ensures[C02,C04] ca && argument == nil && !takes && !option.OptionalArgument ==> isTyped(err, ErrExpectedArgument) && ncalls(Option.Set) == n0
 //@   ensures[C04] err != nil ==> is(err, *Error) && as(err, *Error) != nil
+//@   ensures[C03] same(s.args, old(s.args)) || (len(old(s.args)) > 0 && same(s.args, old(s.args)[1:]))
 //@   assigns s.arg, s.args, Option.isSet, Option.preventDefault, Option.clearReferenceBeforeSet
 
 // Ghost rune sequence of a string (maintained by the engine at every range
@@ -333,6 +336,8 @@ package flags
 //@   loop 1 peel
 //@   loop 1 invariant optname == on && argument == nil && cnt_1 >= 1
 //@   loop 1 invariant forall(j, 0, cnt_1, shortOpt(s, optname, j) != nil)
+//@   loop 1 invariant same(s.args, old(s.args)) || (len(old(s.args)) > 0 && same(s.args, old(s.args)[1:]))
+//@   loop 1 invariant idx_1 < len(optname) ==> same(s.args, old(s.args))
 //@   loop 1 invariant a == nil && forall(j, 0, cnt_1, isFlag(shortOpt(s, optname, j))) ==> ncalls(Option.Set) == old(ncalls(Option.Set)) + cnt_1 && same(s.args, old(s.args)) && s.arg == old(s.arg)
 //@   loop 1 invariant a == nil && forall(j, 0, cnt_1, isFlag(shortOpt(s, optname, j))) ==> forall(j, 0, cnt_1, callarg(Option.Set, old(ncalls(Option.Set)) + j, 0) == shortOpt(s, optname, j) && callarg(Option.Set, old(ncalls(Option.Set)) + j, 1) == nil)
 //@   ensures[C07,C04] len(on) > 0 && shortOpt(s, on, 0) == nil ==> isTyped(err, ErrUnknownFlag) && ncalls(Option.Set) == n0 && same(s.args, old(s.args)) && s.arg == old(s.arg)
@@ -340,4 +345,101 @@ package flags
 //@   ensures[C02] a == nil && err == nil && forall(j, 0, nrunes(on), isFlag(shortOpt(s, on, j))) ==> ncalls(Option.Set) == n0 + nrunes(on) && same(s.args, old(s.args)) && s.arg == old(s.arg)
 //@   ensures[C02] a == nil && err == nil && forall(j, 0, nrunes(on), isFlag(shortOpt(s, on, j))) ==> forall(j, 0, nrunes(on), callarg(Option.Set, n0 + j, 0) == shortOpt(s, on, j) && callarg(Option.Set, n0 + j, 1) == nil)
 //@   ensures[C04] err != nil ==> is(err, *Error) && as(err, *Error) != nil
+//@   ensures[C03] len(s.args) <= len(old(s.args))
 //@   assigns s.arg, s.args, Option.isSet, Option.preventDefault, Option.clearReferenceBeforeSet
+
+// ===================================================================
+// command.go / parser.go: commands, positionals, output
+// ===================================================================
+
+//@ assumed func (c *Command) makeLookup() (r lookup)
+//@   pure
+
+//@ func (c *Command) fillParseState(s *parseState)
+//@   props C08 C10 C04
+//@   requires c != nil && s != nil
+//@   ensures[C08] s.command == c && s.lookup == c.makeLookup()
+//@   ensures[C10] len(s.positional) == len(c.args) && forall(i, 0, len(c.args), s.positional[i] == c.args[i])
+//@   assigns s.positional, s.lookup, s.command
+
+//@ func (p *Parser) parseNonOption(s *parseState) (err error)
+//@   props C03 C08 C10 C04
+//@   requires s != nil && s.command != nil
+//@   let cmd := s.lookup.commands[s.arg]
+//@   let sel := len(s.positional) == 0 && len(s.command.commands) > 0 && len(s.retargs) == 0
+//@   let c0 := s.command
+//@   ensures[C08] sel && cmd != nil ==> err == nil && c0.Active == cmd && s.command == cmd && s.lookup == cmd.makeLookup() && same(s.retargs, old(s.retargs)) && s.err == old(s.err)
+//@   ensures[C08,C10] sel && cmd != nil ==> len(s.positional) == len(cmd.args) && forall(i, 0, len(cmd.args), s.positional[i] == cmd.args[i])
+//@   ensures[C08] sel && cmd != nil ==> ncalls(convert) == old(ncalls(convert))
+//@   ensures[C08,C04] sel && cmd == nil && !c0.SubcommandsOptional ==> isTyped(err, ErrUnknownCommand)
+//@   like[C03,C10] parseState.addArgs(s, []string{s.arg}) when !sel || (cmd == nil && c0.SubcommandsOptional)
+//@   like[C03,C10] parseState.addArgs(s, []string{s.arg}) noresult when sel && cmd == nil && !c0.SubcommandsOptional
+//@   ensures !(sel && cmd != nil) ==> s.command == c0 && s.lookup == old(s.lookup) && c0.Active == old(c0.Active)
+//@   ensures same(s.args, old(s.args)) && s.arg == old(s.arg)
+//@   assigns s.positional, s.retargs, s.err, s.lookup, s.command, Command.Active
+
+//@ assumed func fmt.Fprintln(w io.Writer, a ...interface{}) (n int, err error)
+//@   traced
+
+//@ func (p *Parser) printError(err error) (r error)
+//@   props C04 C09
+//@   traced
+//@   requires p != nil
+//@   requires is(err, *Error) ==> as(err, *Error) != nil
+//@   ensures[C04,C09] r == err
+//@   ensures[C04] err != nil && p.Options&PrintErrors != 0 ==> ncalls(fmt.Fprintln) == old(ncalls(fmt.Fprintln)) + 1
+//@   ensures[C04] err != nil && p.Options&PrintErrors != 0 ==> callarg(fmt.Fprintln, old(ncalls(fmt.Fprintln)), 0) == ite(isTyped(err, ErrHelp), io.Writer(os.Stdout), io.Writer(os.Stderr))
+//@   ensures[C04] !(err != nil && p.Options&PrintErrors != 0) ==> ncalls(fmt.Fprintln) == old(ncalls(fmt.Fprintln))
+//@   assigns nothing
+
+// ===================================================================
+// parser.go: ParseArgs
+// ===================================================================
+
+//@ assumed func (option *Option) updateDefaultLiteral()
+//@   assigns Option.defaultLiteral
+//@ assumed func (c *Command) addHelpGroups(showHelp func() error)
+//@   assigns Command.hasBuiltinHelpGroup, Group.groups
+//@ assumed func os.Getenv(key string) (v string)
+//@   pure
+//@ assumed func os.Exit(code int)
+//@   ensures false
+//@ assumed func (c *completion) complete(args []string) (r []Completion)
+//@ assumed func (c *completion) print(items []Completion, showDescriptions bool)
+//@   traced
+//@ assumed func (option *Option) clearDefault() (err error)
+//@   traced
+//@   ensures is(err, *Error) ==> as(err, *Error) != nil
+//@   assigns Option.isSet, Option.isSetDefault, Option.preventDefault, Option.clearReferenceBeforeSet
+//@ assumed func (p *parseState) checkRequired(parser *Parser) (err error)
+//@   traced
+//@   ensures err != nil ==> p.err == err && isTyped(err, ErrRequired)
+//@   ensures err == nil ==> p.err == old(p.err)
+//@   assigns p.err
+//@ assumed func (p *parseState) estimateCommand() (err error)
+//@   ensures isTyped(err, ErrUnknownCommand) || isTyped(err, ErrCommandRequired)
+//@ assumed func Commander.Execute(c Commander, args []string) (err error)
+//@   traced
+//@   ensures is(err, *Error) ==> as(err, *Error) != nil
+//@ assumed func Parser.CommandHandler(command Commander, args []string) (err error)
+//@   traced
+//@   ensures is(err, *Error) ==> as(err, *Error) != nil
+//@ assumed func Parser.UnknownOptionHandler(option string, arg SplitArgument, args []string) (r []string, err error)
+//@   traced
+//@   ensures is(err, *Error) ==> as(err, *Error) != nil
+//@   ensures len(r) <= len(args)
+
+//@ func (p *Parser) ParseArgs(args []string) (rest []string, err error)
+//@   props C03 C04 C07 C09
+//@   requires p != nil && p.Command != nil
+//@   requires is(p.internalError, *Error) ==> as(p.internalError, *Error) != nil
+//@   let e0 := ncalls(Commander.Execute)
+//@   let h0 := ncalls(Parser.CommandHandler)
+//@   let pe0 := ncalls(Parser.printError)
+//@   loop 2 invariant s != nil && s.command != nil
+//@   loop 2 invariant is(s.err, *Error) ==> as(s.err, *Error) != nil
+//@   loop 2 decreases len(s.args)
+//@   loop 3 invariant s != nil && s.command != nil
+//@   loop 3 invariant is(s.err, *Error) ==> as(s.err, *Error) != nil
+//@   ensures[C09] ncalls(Commander.Execute) + ncalls(Parser.CommandHandler) <= e0 + h0 + 1
+//@   ensures[C04] os.Getenv("GO_FLAGS_COMPLETION") == "" ==> ncalls(Parser.printError) == pe0 + ite(err != nil && p.internalError == nil, 1, 0)
